@@ -316,6 +316,12 @@ impl Consume for SenderFlowState {
         loop {
             match consume_link_credit(&self.state().lock, item) {
                 Ok(outcome) => return outcome,
+                #[cfg(fe2o3_amqp_verif)]
+                Err(_) => {
+                    crate::verif::sched_point("sender-credit-check-failed").await;
+                    self.notifier.notified().await
+                }
+                #[cfg(not(fe2o3_amqp_verif))]
                 Err(_) => self.notifier.notified().await, // **NOT** cancel safe
             }
         }
